@@ -375,7 +375,11 @@ func genPopulation(rng *rand.Rand, maxStreams int) (versions []*c02Stream, nIdx 
 				}
 			}
 			s.FirstH = rng.Intn(40)
-			for k := rng.Intn(4); k > 0; k-- {
+			nch := rng.Intn(4)
+			if os.Getenv("C02_THEN") != "" {
+				nch = rng.Intn(7) // longer conversations for sequences
+			}
+			for k := nch; k > 0; k-- {
 				s.Chunks = append(s.Chunks, c02Chunks[rng.Intn(len(c02Chunks))])
 			}
 			s.ServerFirst = len(s.Chunks) > 0 && rng.Intn(4) == 0
@@ -417,6 +421,17 @@ func genAtom(rng *rand.Rand, withData bool) c02Q {
 		var th c02Then
 		for k := 1 + rng.Intn(3); k > 0; k-- {
 			th.E = append(th.E, c02Data{[]string{"cdata", "sdata"}[rng.Intn(2)], res[rng.Intn(len(res))]})
+		}
+		if len(th.E) == 3 && rng.Intn(2) == 0 {
+			// the same expression again later in the chain (expressions are shared between elements)
+			th.E[2] = th.E[0]
+			if rng.Intn(2) == 0 {
+				th.E[1].Key = th.E[0].Key
+			}
+		}
+		if len(th.E) == 2 && rng.Intn(4) == 0 {
+			// ... or shared with another filter of the same conjunction
+			return c02And{th.E[1], th}
 		}
 		return th
 	}
